@@ -87,6 +87,10 @@ const BODY: &[&str] = &[
     "# indented hash is output",
     "> angle after output",
     "[not] exit",
+    "[-1]",
+    "[+0]",
+    "[ 1]",
+    "[1 ]",
     "ünï 世界",
     "\tTAB inside",
     "a\\*b (glob)",
@@ -95,7 +99,7 @@ const BODY: &[&str] = &[
     " é",
 ];
 const CMDS: &[&str] = &["echo hello", "cat <<EOF", "printf 'a\\nb'", "true", "echo '  $ x'", "ls  ", "echo \"# no comment\"", ""];
-const CONT: &[&str] = &["arg", "EOF", "  indented", "| sort", "> nested angle"];
+const CONT: &[&str] = &["arg", "EOF", "  indented", "| sort", "> nested angle", "", ""];
 const COMMENTS: &[&str] = &["# a comment", "#", "#   $ not a command", "#!x"];
 
 fn test_strategy() -> BoxedStrategy<CramTest> {
@@ -316,7 +320,7 @@ pub struct SoupCase {
 
 const SOUP: &[&str] = &[
     "  $ cmd", "  > cont", "  out", "  ", " ", "", "title", "# c", "  [1]", "  [2]", "  x (re)", "  ( (re)",
-    "  \\x (esc)", "   $ three", " $ one", "$ zero", "  $", "  $  two blanks", "\t$ tab", "  > ", "  é (glob)", "  ()",
+    "  \\x (esc)", "   $ three", " $ one", "$ zero", "  $", "  $  two blanks", "\t$ tab", "  > ", "  é (glob)", "  ()", "  [-1]", "  [+1]", "  >", "  > ",
     "世", " é", "aé", "€", " 世 $ x", "  世", "\u{a0}\u{a0}$ nbsp", "\u{2003}$ em space",
 ];
 
